@@ -7,7 +7,7 @@ from lib import campaign as K
 META = {
     "claimed": True,
     "technique": "Lean 4 invariant proofs over a byte-counter step model of async / flush_to_capacity / back-pressure + trace acceptance of real runs (real counters exported by hooks)",
-    "text": "Theorems unsent_bound / no_early_send / aggregate_single_send / producer_pending_bound over YgmVerif.Bytes prove for every capacity, message size sequence and "
+    "text": "[C07_halt_wait_ends(_early): the back-pressure wait of async ends once the posted sends complete, for every capacity incl. 0] Theorems unsent_bound / no_early_send / aggregate_single_send / producer_pending_bound over YgmVerif.Bytes prove for every capacity, message size sequence and "
             "completion delay that a main-context async leaves at most the capacity unsent (at most capacity + the message inside the call), that nothing is put on the wire "
             "outside flush points while the capacity is not exceeded, and that a pure producer never has more than 2*capacity + one message posted-but-incomplete. Real runs "
             "with message sizes steered to capacity-1/capacity/capacity+1, fan-outs 1..n and starved completions are replayed through the model's step (the real "
